@@ -409,6 +409,10 @@ struct Spec
 	stop_on_error: bool,
 	#[serde(default)]
 	wasm: bool,
+	/// Like the CLI: check every module for surface level errors (lexing,
+	/// parsing, import expansion) before any module is analysed.
+	#[serde(default)]
+	surface_first: bool,
 }
 
 struct StepResult
@@ -580,6 +584,36 @@ fn cmd_history(args: &[String]) -> i32
 		compiler.for_wasm().unwrap();
 	}
 	let mut stopped = false;
+	if spec.surface_first
+	{
+		for (i, op) in spec.ops.iter().enumerate()
+		{
+			let (path, declarations) = &expanded[op.g][op.m];
+			if let Err(errors) = resolver::check_surface_level_errors(declarations)
+			{
+				let name = path.to_string_lossy().to_string();
+				let r = StepResult {
+					verdict: "surface_errors",
+					errors: errors
+						.errors
+						.iter()
+						.map(|e| format!("{:?}", e))
+						.collect(),
+					codes: errors.codes(),
+					lints: Vec::new(),
+					ir: None,
+				};
+				emit(step_json("step", i, op, &name, &r));
+				stopped = true;
+				break;
+			}
+		}
+	}
+	if stopped
+	{
+		emit(json!({"kind": "done"}));
+		return 0;
+	}
 	for (i, op) in spec.ops.iter().enumerate()
 	{
 		let (path, declarations) = &expanded[op.g][op.m];
